@@ -186,6 +186,12 @@ def run(case):
                     bl.add_tomogram(volb, mb, image_id=ids_[j])
                 singles.append(sl_)
                 ns.append(nb)
+                if j == 0 and rng.random() < 0.6:
+                    # use the loader before it is complete: later registrations must show up in later results
+                    a_first = np.asarray(bl.average())
+                    case.check(float(np.abs(a_first - np.asarray(sl_.average())).max()) <= (2e-4 if bl.order else 1.0),
+                               "batch average with one tomogram != that tomogram's own average", None)
+                    case.count("batch_used_before_complete")
             avg_b = np.asarray(bl.average())
             comb_b = sum(n * np.asarray(sl.average()) for n, sl in zip(ns, singles)) / sum(ns)
             comb_l = sum(n * np.asarray(ld.average()) for n, ld in zip(ns, bl.loaders)) / sum(ns)
@@ -287,6 +293,25 @@ def run(case):
             case.check(np.allclose(np.stack([h0, h1], 1), rh, atol=1e-6 * amp),
                        "fsc_with_halfmaps half-maps differ from average_split", None)
             if p["kind"] == "group":
+                # a grouping with a one-molecule group that is neither first nor last in table order
+                import polars as _pl2
+
+                if N >= 4:
+                    gsv = [0 if i < N // 2 else 1 for i in range(N)]
+                    gsv[1] = 7
+                    ld_s = oh_loader.replace(molecules=oh_loader.molecules.with_features(_pl2.Series("gs", gsv)))
+                    spl = ld_s.groupby("gs").average_split(n_set=1, seed=sd, squeeze=False)
+                    uids_s = ld_s.molecules.features["uid"].to_numpy()
+                    case.check(set(spl.keys()) == set(gsv), "group split: keys are not the group keys", None,
+                               got=sorted(spl.keys()), want=sorted(set(gsv)))
+                    for k, arr in spl.items():
+                        members = set(uids_s[np.array(gsv) == k].tolist())
+                        f0 = np.nan_to_num(arr[0, 0].reshape(-1)[:N])
+                        f1 = np.nan_to_num(arr[0, 1].reshape(-1)[:N])
+                        got_m = set(np.where(f0 > 1e-9)[0].tolist()) | set(np.where(f1 > 1e-9)[0].tolist())
+                        case.check(got_m == members, "group split: half-maps stored under a key do not belong to that "
+                                   "group's molecules", None, key=k, got=sorted(got_m), want=sorted(members))
+                    case.count("group_split_with_singleton")
                 grp = oh_loader.groupby("g")
                 gs = grp.average_split(n_set=1, seed=sd, squeeze=False)
                 uids = oh_loader.molecules.features["uid"].to_numpy()
